@@ -39,6 +39,7 @@ def run(ctx):
     ctx.guard(rule_d, ctx, ix)
     ctx.guard(rule_e, ctx, ix)
     ctx.guard(rule_f, ctx, ix)
+    ctx.guard(rule_g, ctx, ix)
 
 
 def _loop(f, data_p):
@@ -451,3 +452,27 @@ def rule_f(ctx, ix):
                    where='%s:%d' % (m.relpath, getattr(c, 'lineno', getattr(ex, 'lineno', 0))))
     ctx.ob(R, 'readers / writers dtypes', 'every dtype= / np.dtype(...) expression of the readers and writers was examined (%d modules)' % nmod, nmod >= 5,
            detail='only %d reader / writer modules seen' % nmod)
+
+
+def rule_g(ctx, ix):
+    """The exporters write the values the dataset hands out (for a text column: its labels).  The integer codes of a categorical
+    array are a display quantity - jitter is added to them - so a writer that rebuilds the labels as categories[codes] writes the
+    neighbouring category for jittered rows."""
+    R = 'C19.g'
+    ctx.describe(R, 'the exporters never rebuild text columns from the integer codes of a categorical array', floor=1)
+    probe = ast.parse('values = categories[values.codes.astype(int)]')
+    if not [a for a in ast.walk(probe) if isinstance(a, ast.Attribute) and a.attr == 'codes']:
+        raise AnalysisError('C19.g: the detector no longer recognises its reference example')
+    n = 0
+    for m in sorted(ix.modules.values(), key=lambda m_: m_.name):
+        if not m.name.startswith('glue.core.data_exporters') or '.tests' in m.name:
+            continue
+        n += 1
+        uses = [a for a in ast.walk(m.tree) if isinstance(a, ast.Attribute) and a.attr in ('codes', '_codes')]
+        ctx.ob(R, m.name, 'no use of categorical codes in the writer', not uses,
+               detail='%s reads `.codes` of the values it exports (line %s): the codes include the display jitter of the component, so '
+                      'labels rebuilt from them (categories[codes.astype(int)]) are those of the neighbouring category for jittered rows - '
+                      'the file silently holds other labels than the dataset' % (m.name, uses[0].lineno if uses else ''),
+               where='%s:%d' % (m.relpath, uses[0].lineno if uses else 1))
+    if n < 3:
+        raise AnalysisError('C19.g: only %d exporter modules seen' % n)
